@@ -123,6 +123,49 @@ pub fn children(n: &Node) -> Vec<(String, &Node)> {
     }
 }
 
+/// Mutable children, same order as `children`.
+pub fn children_mut(n: &mut Node) -> Vec<&mut Node> {
+    use Node::*;
+    match n {
+        OpRangeKind { left, right }
+        | OpConcatenateKind { left, right }
+        | OpSumKind { left, right, .. }
+        | OpProductKind { left, right, .. }
+        | OpPowerKind { left, right }
+        | CompareKind { left, right, .. } => vec![left.as_mut(), right.as_mut()],
+        UnaryKind { right, .. } => vec![right.as_mut()],
+        ImplicitIntersection { child, .. } | SpillRangeOperator { child } => vec![child.as_mut()],
+        FunctionKind { args, .. } | NamedFunctionKind { args, .. } => args.iter_mut().collect(),
+        LambdaDefKind { body, .. } => vec![body.as_mut()],
+        LambdaCallKind { lambda, args } => {
+            let mut v = vec![lambda.as_mut()];
+            v.extend(args.iter_mut());
+            v
+        }
+        _ => vec![],
+    }
+}
+
+/// Copy of `n` with its i-th child replaced.
+pub fn with_child(n: &Node, i: usize, new_child: Node) -> Node {
+    let mut c = n.clone();
+    if let Some(slot) = children_mut(&mut c).into_iter().nth(i) {
+        *slot = new_child;
+    }
+    c
+}
+
+/// Removes every implicit-intersection operator (keeps its operand).
+pub fn strip_ii(n: &mut Node) {
+    while let Node::ImplicitIntersection { child, .. } = n {
+        let c = (**child).clone();
+        *n = c;
+    }
+    for c in children_mut(n) {
+        strip_ii(c);
+    }
+}
+
 pub fn has_parse_error(n: &Node) -> bool {
     if matches!(n, Node::ParseErrorKind { .. }) {
         return true;
@@ -261,6 +304,94 @@ pub fn stored_rc(m: &ironcalc_base::Model, sheet: u32, row: i32, column: i32) ->
     let ws = m.workbook.worksheets.get(sheet as usize)?;
     let idx = ws.cell(row, column)?.get_formula()?;
     ws.shared_formulas.get(idx as usize).cloned()
+}
+
+/// What a workbook stores (formulas per cell in R1C1, defined names, conditional formats) and what it computes.
+#[derive(Clone, Debug, PartialEq, Default)]
+pub struct Snap {
+    pub stored: std::collections::BTreeMap<String, String>,
+    pub values: std::collections::BTreeMap<String, String>,
+}
+
+pub fn snap(m: &ironcalc_base::Model) -> Snap {
+    let mut s = Snap::default();
+    for (i, ws) in m.workbook.worksheets.iter().enumerate() {
+        s.stored.insert(format!("sheet[{}].name", i), ws.get_name());
+        let mut rows: Vec<&i32> = ws.sheet_data.keys().collect();
+        rows.sort();
+        for r in rows {
+            let mut cols: Vec<&i32> = ws.sheet_data[r].keys().collect();
+            cols.sort();
+            for c in cols {
+                let cell = &ws.sheet_data[r][c];
+                let key = format!("sheet[{}]!R{}C{}", i, r, c);
+                if let Some(fi) = cell.get_formula() {
+                    let f = ws.shared_formulas.get(fi as usize).cloned().unwrap_or_else(|| "<missing>".into());
+                    s.stored.insert(format!("{}.formula", key), f);
+                }
+                // language-independent reading of the value: errors by their English name, plus the cell type
+                // (get_cell_value_by_index localizes error names, which is display, not value)
+                s.values.insert(
+                    key,
+                    format!(
+                        "{:?}:{:?}",
+                        cell.get_type(),
+                        cell.value(&m.workbook.shared_strings, lang("en"))
+                    ),
+                );
+            }
+        }
+        for (k, cf) in ws.conditional_formatting.iter().enumerate() {
+            s.stored.insert(format!("sheet[{}].cf[{}]", i, k), format!("{:?}", cf));
+        }
+    }
+    let mut names: Vec<String> = m
+        .workbook
+        .defined_names
+        .iter()
+        .map(|d| format!("name[{}|{:?}]={}", d.name, d.sheet_id, d.formula))
+        .collect();
+    names.sort();
+    for (k, n) in names.into_iter().enumerate() {
+        s.stored.insert(format!("defined_name[{}]", k), n);
+    }
+    s
+}
+
+/// First differing entries of two maps as "key: a -> b" lines (at most `max`).
+pub fn map_diff(
+    a: &std::collections::BTreeMap<String, String>,
+    b: &std::collections::BTreeMap<String, String>,
+    max: usize,
+) -> Vec<(String, String, String)> {
+    let mut out = vec![];
+    let keys: std::collections::BTreeSet<&String> = a.keys().chain(b.keys()).collect();
+    for k in keys {
+        let x = a.get(k).cloned().unwrap_or_else(|| "<absent>".into());
+        let y = b.get(k).cloned().unwrap_or_else(|| "<absent>".into());
+        if x != y {
+            out.push((k.clone(), x, y));
+            if out.len() >= max {
+                break;
+            }
+        }
+    }
+    out
+}
+
+/// Class of a snapshot key: formula / value / cf / defined_name / sheet-name.
+pub fn key_class(k: &str) -> &'static str {
+    if k.ends_with(".formula") {
+        "formula"
+    } else if k.contains(".cf[") {
+        "cf"
+    } else if k.starts_with("defined_name") {
+        "defined_name"
+    } else if k.ends_with(".name") {
+        "sheet_name"
+    } else {
+        "value"
+    }
 }
 
 // ---------------------------------------------------------------------------------------------
